@@ -578,10 +578,11 @@ class MPS(State[complex, torch.Tensor]):
 
         for left in range(0, self.num_sites):
             self.orthogonalize(left)
+            # the operator's column index contracts with the ket, its row index with the bra
             accumulator = torch.tensordot(
                 self.factors[left],
                 operator.to(self.factors[left].device),
-                dims=([1], [0]),
+                dims=([1], [1]),
             )
             accumulator = torch.tensordot(
                 accumulator, self.factors[left].conj(), dims=([0, 2], [0, 1])
@@ -599,7 +600,7 @@ class MPS(State[complex, torch.Tensor]):
 
                 result[left, right] = (
                     torch.tensordot(
-                        partial, operator.to(partial.device), dims=([0, 2], [0, 1])
+                        partial, operator.to(partial.device), dims=([0, 2], [1, 0])
                     )
                     .trace()
                     .item()
